@@ -49,6 +49,9 @@ VIRT = {   # strided leaves: name -> expression AST
     "s62": ("+", ("*", ("var", "i3"), ("const", 6)), ("const", 2)),
     "s30": ("*", ("var", "u2"), ("const", 3)),
     "sneg": ("-", ("const", 5), ("*", ("var", "u3"), ("const", 2))),
+    "s43": ("+", ("*", ("var", "u3"), ("const", 4)), ("const", 3)),
+    "s40": ("*", ("var", "u2"), ("const", 4)),
+    "s97": ("+", ("*", ("var", "i2"), ("const", 9)), ("const", 7)),
 }
 CONSTS = [0, 1, -1, 2, 3, 5, 7, 2 ** 31, 2 ** 32, I63 - 1, -I63, U64 - 1]
 FULL = [("const", c) for c in CONSTS] + [("var", v) for v in VARS] + [("virt", v) for v in VIRT]
@@ -144,7 +147,10 @@ def gen_exprs(tier):
                 out.append(("max", x, y, z))
     conds = [("bool", True), ("bool", False), ("<", ("var", "u2"), ("var", "i2")), ("==", ("var", "pa"), ("const", 3)),
              (">=", ("var", "u1"), ("const", 1)), ("&&", ("<", ("var", "u1"), ("const", 1)), ("!=", ("var", "pb"), ("const", 0))),
-             ("||", ("==", ("var", "u1"), ("const", 1)), ("==", ("var", "pb"), ("const", 2)))]
+             ("||", ("==", ("var", "u1"), ("const", 1)), ("==", ("var", "pb"), ("const", 2))),
+             ("||", ("bool", True), ("==", ("var", "u1"), ("const", 1))), ("||", ("==", ("var", "u1"), ("const", 1)), ("bool", True)),
+             ("&&", ("bool", False), ("==", ("var", "u1"), ("const", 1))), ("&&", ("==", ("var", "u1"), ("const", 1)), ("bool", False)),
+             ("||", ("bool", False), ("==", ("var", "u1"), ("const", 1))), ("&&", ("bool", True), ("==", ("var", "u1"), ("const", 1)))]
     for c in conds:
         for x in FULL:
             for y in SMALL + [("var", "u64"), ("const", -I63)]:
